@@ -1,6 +1,7 @@
 package main
 
 import (
+	"regexp"
 	"bytes"
 	"context"
 	"fmt"
@@ -35,6 +36,84 @@ func (w *World) queryText(o *Obligation, wantModel bool) string {
 // loop invariants than o.Focus and (b) earlier obligations turned into
 // assumptions. Dropping assumptions is sound for "unsat" answers only.
 func (w *World) queryTextV(o *Obligation, wantModel, focused bool) string {
+	return w.queryTextS(o, wantModel, focused, 0)
+}
+
+var symTokenRe = regexp.MustCompile(`\|[^|]*\||[A-Za-z_][A-Za-z0-9_.!@$#%^&*<>=/+~?-]*`)
+
+// factSymbols: the declared constants a fact mentions, split into data symbols and control symbols
+// (reach_/edge_ path variables).
+func (w *World) factSymbols(f string) (data []string) {
+	seen := map[string]bool{}
+	for _, tok := range symTokenRe.FindAllString(f, -1) {
+		name := strings.Trim(tok, "|")
+		if seen[name] || !w.constSet[name] {
+			continue
+		}
+		seen[name] = true
+		if strings.HasPrefix(name, "reach_") || strings.HasPrefix(name, "edge_") {
+			continue
+		}
+		data = append(data, name)
+	}
+	return data
+}
+
+// relevantFacts: a cone of influence of the goal over data symbols, `depth` rounds deep. Symbols
+// that occur in very many facts (the receiver, the entry allocation counter) do not pull facts in.
+// Facts without data symbols (pure control flow) are always kept. Dropping assumptions is sound
+// for "unsat" answers only, and only those are used from sliced queries.
+func (w *World) relevantFacts(o *Obligation, idx []int, depth int) map[int]bool {
+	syms := make([][]string, len(w.facts))
+	count := map[string]int{}
+	for _, i := range idx {
+		syms[i] = w.factSymbols(w.facts[i])
+		for _, s := range syms[i] {
+			count[s]++
+		}
+	}
+	hub := func(s string) bool { return count[s] > 60 }
+	S := map[string]bool{}
+	for _, s := range w.factSymbols(o.Goal + " " + o.Reach) {
+		S[s] = true
+	}
+	keep := map[int]bool{}
+	for round := 0; round < depth; round++ {
+		var add []string
+		for _, i := range idx {
+			if keep[i] {
+				continue
+			}
+			hit := false
+			for _, s := range syms[i] {
+				if S[s] && !hub(s) {
+					hit = true
+					break
+				}
+			}
+			if hit {
+				keep[i] = true
+				add = append(add, syms[i]...)
+			}
+		}
+		if len(add) == 0 {
+			break
+		}
+		for _, s := range add {
+			S[s] = true
+		}
+	}
+	for _, i := range idx {
+		if len(syms[i]) == 0 {
+			keep[i] = true
+		}
+	}
+	return keep
+}
+
+// queryTextS: slice > 0 additionally restricts the assumptions to the cone of influence of the goal
+// (relevantFacts with that depth).
+func (w *World) queryTextS(o *Obligation, wantModel, focused bool, slice int) string {
 	var sb strings.Builder
 	if wantModel {
 		sb.WriteString("(set-option :produce-models true)\n")
@@ -67,8 +146,22 @@ func (w *World) queryTextV(o *Obligation, wantModel, focused bool) string {
 	for _, d := range w.constDecls {
 		sb.WriteString(d + "\n")
 	}
+	var rel map[int]bool
+	if slice > 0 {
+		var idx []int
+		for i := range w.facts[:o.NFacts] {
+			if o.Anc != nil && w.factBlock[i] >= 0 && !o.Anc[w.factBlock[i]] {
+				continue
+			}
+			idx = append(idx, i)
+		}
+		rel = w.relevantFacts(o, idx, slice)
+	}
 	for i, f := range w.facts[:o.NFacts] {
 		if o.Anc != nil && w.factBlock[i] >= 0 && !o.Anc[w.factBlock[i]] {
+			continue
+		}
+		if rel != nil && !rel[i] {
 			continue
 		}
 		if o.Cover && strings.Contains(f, "(forall ") {
